@@ -146,8 +146,7 @@ def run(check: Check):
     g = guards_of(ff, ff.module.enclosing_stmt(c))
     exhausted = any(pol and isinstance(t, ast.Compare) and isinstance(t.ops[0], ast.Eq) and txt(t.left) == A and isinstance(
         t.comparators[0], ast.Constant) and t.comparators[0].value == 0 for t, pol in g)
-    enabled = any((pol and isinstance(t, ast.UnaryOp) and isinstance(t.op, ast.Not) and txt(t.operand).endswith('skip_shuffle')) or
-                  ((not pol) and txt(t).endswith('skip_shuffle')) for t, pol in g)
+    enabled = any((not pol) and txt(t).endswith('skip_shuffle') for t, pol in g)
     ex_if = next((n.ast for n in ff.cfg.nodes if n.kind == 'if' and isinstance(n.ast.test, ast.Compare) and txt(n.ast.test.left) == A and isinstance(
         n.ast.test.ops[0], ast.Eq)), None)
     reset = ex_if is not None and any(isinstance(s_, ast.Assign) and txt(s_.targets[0]) == C and isinstance(s_.value, ast.Constant) and s_.value.value == 0
@@ -233,9 +232,9 @@ def _num_steps(check: Check):
       if txt(num) == 'self._data_size * hparams.num_epochs + hparams.batch_size - 1' and txt(v.right) == 'hparams.batch_size':
         ceil = ('hparams.drop_remainder', False) in g
     if isinstance(v, ast.Call) and ff.ext(v.func) == 'builtins.min' and {txt(a) for a in v.args} == {'hparams.num_steps', 'self._num_steps'}:
-      cap = ('hparams.num_steps is not None', True) in g and ('hparams.num_epochs is not None', True) in g
+      cap = ('hparams.num_steps is None', False) in g and ('hparams.num_epochs is None', False) in g
     if t == 'hparams.num_steps':
-      only_steps = ('hparams.num_epochs is not None', False) in g
+      only_steps = ('hparams.num_epochs is None', True) in g
     if isinstance(v, ast.Constant) and v.value is None:
       none = True
   check.ob('R-SIZE.steps', fi, 'drop_remainder: N*epochs // b; else (N*epochs + b - 1) // b', floor and ceil,
